@@ -381,6 +381,10 @@ STRESS = ['dyn 4 1:L 1:L', 'dyn 43 1:%sL 1:%sL 1:%sL 1:%sL' % (('RL' * 30,) * 4)
           'dyn 444 3:LLRL 2:LRL 1:RRL', 'sta 344 1:RLL 1:L 1:RRLLL', 'dyn 2 1:L 1:L 1:L 1:L 1:L 1:L']
 
 
+# targeted free-running search: groups of threads run their programs at once on a fresh object (spin barrier per object)
+RACE = [('sta 4 1:L 1:L', 3, 4.5), ('sta 43 1:RLL 1:L', 3, 2.0), ('sta 4 1:L 1:L 1:L 1:L', 1, 2.0), ('sta 34 1:L 1:L 1:L', 2, 2.0)]
+
+
 def run(ctx, res, seq_cases=None, conc=None):
     exe, exe_plain = ctx.path('C34'), ctx.path('C34plain')
     src = os.path.join(pv.ROOT, 'harness', 'C34.c')
@@ -515,7 +519,7 @@ def run(ctx, res, seq_cases=None, conc=None):
     # ---- 3. free-running stress: a search for a failing execution judged by the property itself (no model)
     if not replaying or res.disagreements:
         big = res.disagreements or not ctx.quick or not ctx.driver_ok
-        rounds = 80000 if big else 8000
+        rounds = 80000 if big else 5000
         sl = ['case %d %s | stress %d' % (i, c, rounds) for i, c in enumerate(STRESS)]
         rc, out, err = pv.sh([exe_plain], input='\n'.join(sl) + '\n', timeout=1500)
         _, _, st2, viols = pv.parse_transcript(out)
@@ -526,6 +530,19 @@ def run(ctx, res, seq_cases=None, conc=None):
         if rc != 0:
             res.violations.append({'key': 'stress-exit-%d' % rc, 'what': 'free-running stress: harness exited with %d (crash / double free in the real code?): %s' % (rc, san_head(err)), 'mode': 'stress'})
 
+    # ---- 3b. targeted race search: the last N references released simultaneously by N threads, millions of objects;
+    #          exposes a parsec_obj_update whose return value is not the fetch-add result (invisible to the cooperative scheduler)
+    if not replaying or res.disagreements:
+        for cfg, groups, secs in RACE:
+            rc, out, err = pv.sh([exe_plain], input='case 0 %s | race %d %g\n' % (cfg, groups, secs if ctx.quick else 4 * secs), timeout=600)
+            _, _, st2, viols = pv.parse_transcript(out)
+            for k, v in st2.items():
+                stats[k] = stats.get(k, 0) + v
+            if viols:
+                res.violations.append({'key': 'race:%s:not-destroyed-exactly-once' % cfg, 'what': viols[0], 'case': '%s | race %d %g' % (cfg, groups, secs), 'mode': 'race', 'all': viols[:8]})
+            if rc != 0:
+                res.violations.append({'key': 'race:%s:exit-%d' % (cfg, rc), 'what': 'race search: harness exited with %d: %s' % (rc, san_head(err)), 'mode': 'race'})
+
     # ---- 4. observation (not part of the verdict): instantiating the root class itself
     if not replaying:
         rc, out, err = pv.sh([exe_plain, '--probe-root'], timeout=60)
@@ -535,7 +552,7 @@ def run(ctx, res, seq_cases=None, conc=None):
     res.rule = ('sequential: corpus + one script per class of the 340-class family (depth 1-4) + random scripts over 4 object slots, real macros under ASan/UBSan, exact comparison with the Lean model; '
                 'concurrent: each evaluation = one complete schedule of 1-6 threads executed by the real PARSEC_OBJ_RETAIN/RELEASE under the cooperative scheduler and replayed step by step on the Lean machine '
                 '(exhaustive DFS for the listed small cases, PRNG schedules of locally safe programs, generated protocol-respecting hand-off histories, protocol-violating programs on static objects); '
-                'distinct = (class, programs, schedule) resp. op script; non-trivial = >=2 threads and >=3 operations executed, resp. a script in which destructors ran; plus free-running stress rounds judged by the property itself')
+                'distinct = (class, programs, schedule) resp. op script; non-trivial = >=2 threads and >=3 operations executed, resp. a script in which destructors ran; plus free-running stress rounds and a targeted race search (N threads release the last N references of millions of fresh objects at a spin barrier; exactly one zero observation and one run of the destructors per object) judged by the property itself')
     info_tot['seq_op_histogram'] = hist
     info_tot.update(dist)
     info_tot.update(stats)
